@@ -276,7 +276,7 @@ func (w *queueWorld) createJob(kind string) {
 			},
 		}
 		if hasAfter {
-			ts := metav1.NewTime(w.Now().Add(time.Duration(after) * time.Second))
+			ts := metav1.NewTime(w.Now().Truncate(time.Second).Add(time.Duration(after) * time.Second)) // whole seconds, like every serialised time
 			rj.Spec.StartPolicy = &execution.StartPolicySpec{ConcurrencyPolicy: execution.ConcurrencyPolicyAllow, StartAfter: &ts}
 		}
 	} else {
@@ -289,7 +289,7 @@ func (w *queueWorld) createJob(kind string) {
 		rj.Name = name
 		rj.Spec.StartPolicy = &execution.StartPolicySpec{ConcurrencyPolicy: execution.ConcurrencyPolicy(policy)}
 		if hasAfter {
-			ts := metav1.NewTime(w.Now().Add(time.Duration(after) * time.Second))
+			ts := metav1.NewTime(w.Now().Truncate(time.Second).Add(time.Duration(after) * time.Second)) // whole seconds, like every serialised time
 			rj.Spec.StartPolicy.StartAfter = &ts
 		}
 	}
@@ -404,6 +404,9 @@ func (w *queueWorld) deadlines() []time.Time {
 	for _, rj := range w.jobs() {
 		if sp := rj.Spec.StartPolicy; sp != nil && sp.StartAfter != nil && jobutil.IsQueued(rj) {
 			out = append(out, sp.StartAfter.Time)
+			// ... and an instant shortly before it, off the whole second: a sync caused by anything else
+			// (a sibling Job's event) may run then and must still find the Job not due.
+			out = append(out, sp.StartAfter.Add(-400*time.Millisecond))
 		}
 	}
 	return out
